@@ -181,7 +181,7 @@ func generateStatementMatrix(stmts [][]*tree.Node, annotations interface{}, stmt
 
 		// Include statement-level annotations if activated and existing in input
 		if include_ANNOTATIONS && annotations != nil {
-			entryMap[tree.STATEMENT_ANNOTATION] = annotations.(string)
+			entryMap[tree.STATEMENT_ANNOTATION] = performOutputSpecificAdjustments(annotations.(string), outputType)
 		}
 		// Iterate over component index (i.e., column) covering conventional components
 		for componentIdx := range statement {
@@ -751,13 +751,15 @@ func printTabularOutput(statementMap []map[string]string, originalStatement stri
 			// Immediately write optional Original Statement and IG Script headers (if input is not empty)
 			if v == stmtIdColHeader {
 				// Include column for Original Statement output if some form of output is selected
-				if printOriginalStatement != ORIGINAL_STATEMENT_OUTPUT_NONE {
+				// (only for the options for which the rows below contain a corresponding cell)
+				if printOriginalStatement == ORIGINAL_STATEMENT_OUTPUT_FIRST_ENTRY || printOriginalStatement == ORIGINAL_STATEMENT_OUTPUT_ALL_ENTRIES {
 					// Column for Original Statement content
 					builder.WriteString(stmtOriginalStatementHeader)
 					builder.WriteString(separator)
 				}
 				// Include column for IG Script output if some form of output is selected
-				if printIgScript != IG_SCRIPT_OUTPUT_NONE {
+				// (only for the options for which the rows below contain a corresponding cell)
+				if printIgScript == IG_SCRIPT_OUTPUT_FIRST_ENTRY || printIgScript == IG_SCRIPT_OUTPUT_ALL_ENTRIES {
 					// Column for IG Script content
 					builder.WriteString(stmtIgScriptHeader)
 					builder.WriteString(separator)
@@ -984,6 +986,8 @@ func GenerateTabularOutputFromParsedStatements(stmts []*tree.Node, annotations i
 	// Remove potential line breaks from original and IG Script input
 	originalStatement = CleanInput(originalStatement, separator)
 	igScriptInput = CleanInput(igScriptInput, separator)
+	// The statement ID is included in every row and reference; it must not break the table structure either
+	stmtId = shared.EscapeSymbolsForExport(CleanInput(stmtId, separator))
 
 	for i, stmtNode := range stmts {
 		Println("Processing output for node entry ", i)
